@@ -105,7 +105,8 @@ func c11GenMail(r *core.Rand, conf ref.ExtConf) c11Line {
 	if r.Chance(1, 2) {
 		sizes := []int64{0, 1, 1000, 1<<31 - 1, 1 << 31, 1<<32 - 1, 1 << 32, 5000000000, 1 << 40}
 		l.Size = sizes[r.Intn(len(sizes))]
-		params = append(params, fmt.Sprintf("%s=%d", mixCase(r, "SIZE"), l.Size))
+		// size-value = 1*20DIGIT (decimal): leading zeros change nothing
+		params = append(params, fmt.Sprintf("%s=%s%d", mixCase(r, "SIZE"), []string{"", "", "", "0", "00"}[r.Intn(5)], l.Size))
 	}
 	if r.Chance(1, 2) {
 		bodies := []string{"7BIT", "8BITMIME"}
@@ -183,15 +184,18 @@ func c11GenRcpt(r *core.Rand, conf ref.ExtConf) c11Line {
 	}
 	if conf.DSN && r.Chance(1, 2) {
 		if r.Chance(1, 2) {
-			addrs := []string{"bob@example.com", "a+b@c.test", "x=y@c.test", "sp ace@c.test"}
+			addrs := []string{"bob@example.com", "a+b@c.test", "x=y@c.test", "sp ace@c.test", "semi;colon@c.test", ";;@c.test"}
 			l.ORcptType, l.ORcpt = "RFC822", addrs[r.Intn(len(addrs))]
 			params = append(params, mixCase(r, "ORCPT")+"="+mixCase(r, "rfc822")+";"+ref.XtextEncode(l.ORcpt))
 		} else {
 			l.ORcptType, l.ORcpt = "UTF-8", "bob@example.com"
 			enc := "bob@example.com"
-			if r.Chance(1, 2) {
+			switch r.Intn(3) {
+			case 0:
 				l.ORcpt = "a+b@c.test"
 				enc = `a\x{2B}b@c.test`
+			case 1:
+				l.ORcpt, enc = "semi;colon@c.test", "semi;colon@c.test"
 			}
 			params = append(params, mixCase(r, "ORCPT")+"="+mixCase(r, "utf-8")+";"+enc)
 		}
@@ -276,7 +280,7 @@ func c11Run(ctx *core.Ctx) {
 			"MAIL FROM:<a@b.test> ENVID=x", "RCPT TO:<a@b.test> NOTIFY=NEVER", "RCPT TO:<a@b.test> ORCPT=rfc822;a@b", "RCPT TO:<a@b.test> RRVS=2014-04-03T23:01:00Z",
 			"MAIL FROM:<a@b.test> SIZE=", "MAIL FROM:<a@b.test> SIZE=12x", "MAIL FROM:<a@b.test> SIZE=-1", "MAIL FROM:<a@b.test> BODY=9BIT", "MAIL FROM:<a@b.test> BODY=",
 			"MAIL FROM:<a@b.test> RET=ALL", "MAIL FROM:<a@b.test> ENVID=", "MAIL FROM:<a@b.test> ENVID=a+b", "MAIL FROM:<a@b.test> ENVID=a+2", "MAIL FROM:<a@b.test> ENVID=a+2g",
-			"MAIL FROM:<a@b.test> AUTH=", "MAIL FROM:<a@b.test> AUTH=a+b", "MAIL FROM:<a@b.test> FOO=1", "MAIL FROM:<a@b.test> FOO", "MAIL FROM:<a@b.test> SIZE=1=2",
+			"MAIL FROM:<a@b.test> AUTH=", "MAIL FROM:<a@b.test> AUTH=a+b", "MAIL FROM:<a@b.test> FOO=1", "MAIL FROM:<a@b.test> FOO", "MAIL FROM:<a@b.test> SIZE=1=2", "MAIL FROM:<a@b.test> SIZE=0x10", "MAIL FROM:<a@b.test> SIZE=1_0", "MAIL FROM:<a@b.test> SIZE=0b11", "MAIL FROM:<a@b.test> SIZE=0o17", "MAIL FROM:<a@b.test> SIZE=+5", "MAIL FROM:<a@b.test> SIZE=1e3", "MAIL FROM:<a@b.test> SIZE=0X1F",
 			"MAIL FROM:<a@b.test> ENVID=a=b", "RCPT TO:<a@b.test> NOTIFY=", "RCPT TO:<a@b.test> NOTIFY=NEVER,SUCCESS", "RCPT TO:<a@b.test> NOTIFY=SUCCESS,SUCCESS",
 			"RCPT TO:<a@b.test> NOTIFY=SOMETIMES", "RCPT TO:<a@b.test> ORCPT=rfc822", "RCPT TO:<a@b.test> ORCPT=rfc822;", "RCPT TO:<a@b.test> ORCPT=;a@b", "RCPT TO:<a@b.test> ORCPT=rfc822;a+b",
 			"RCPT TO:<a@b.test> RRVS=yesterday", "RCPT TO:<a@b.test> RRVS=", "RCPT TO:<a@b.test> BAR=1", "RCPT TO:<a@b.test> SIZE=1", "MAIL FROM:<a@b.test> NOTIFY=NEVER",
